@@ -13,3 +13,7 @@ def setRelX (m : Mix) (fraction : Rat) : E Mix :=
   match ({ m with rel := some fraction }).abs with
   | some abs0 => if abs0 ≠ 0 then (if (fraction / (100 : Rat)) = 0 then .error .zeroDiv else setSysX { m with rel := some fraction } (abs0 / (fraction / (100 : Rat)))) else (.ok { m with rel := some fraction })
   | none => (.ok { m with rel := some fraction })
+
+/-- `Mixture.generate_string(extension)` (mixture.py): the if-chain and the f-strings as written; a float is formatted by `repr` (`numStr`) -/
+def printMixX (m : P.PMix) (ext : Bool) : Py.Str :=
+  open P in (if ext then (if m.abs.isNone then ".|".toList ++ (match m.rel with | some x => numStr x | none => "None".toList) ++ "%|".toList else ".|".toList ++ (match m.abs with | some x => numStr x | none => "None".toList) ++ "|".toList) else ".".toList)
